@@ -228,7 +228,12 @@ class PrecipitateModel (PrecipitateBase):
             self.PSDXbeta.append(np.zeros((self.PBM[p].bins + 1, 1)))
 
             self.PSDXalpha[p][:,0], self.PSDXbeta[p][:,0] = self.therm.getInterfacialComposition(T, self.particleGibbs(self.PBM[p].PSDbounds, self.precipitateParameters[p].phase), precPhase=self.precipitateParameters[p].phase)
-            self.RdrivingForceIndex[p] = np.amax([np.argmax(self.PSDXalpha[p][:,0] != -1) - 1, 0])
+            stableClasses = self.PSDXalpha[p][:,0] != -1
+            if np.any(stableClasses):
+                self.RdrivingForceIndex[p] = np.amax([np.argmax(stableClasses) - 1, 0])
+            else:
+                #argmax of an all-False array is 0, so if no size class is stable, put the index at the end of the PSDX arrays
+                self.RdrivingForceIndex[p] = len(stableClasses) - 1
             self.precipitateParameters[p].RdrivingForceLimit = self.PBM[p].PSDbounds[self.RdrivingForceIndex[p]]
 
             #Sets particle radii smaller than driving force limit to driving force limit composition
